@@ -716,7 +716,7 @@ func (self *Parser) ExportError(err types.ParsingError) error {
 		return ErrNotExist
 	}
 	return fmt.Errorf("%q", SyntaxError{
-		Pos:  self.p,
+		Pos:  clampPos(self.p, len(self.s)),
 		Src:  self.s,
 		Code: err,
 	}.Description())
